@@ -633,10 +633,12 @@ def _break_then_exit(block: list[ast.stmt]) -> None:
             find(lp.body)
             if len(holders) == 1 and holders[0][1] == len(holders[0][0]) - 1:
                 stmts, j = holders[0]
-                stmts[j:j + 1] = rest
                 tail = lp.orelse
+                # an else clause that falls through runs into REST as well
+                follow = [] if _always_exits(tail) else [_clone(r_) for r_ in rest]
+                stmts[j:j + 1] = rest
                 lp.orelse = []
-                block[i + 1:] = tail
+                block[i + 1:] = tail + follow
         i += 1
 
 
